@@ -291,6 +291,14 @@ func c01Fronts(c *core.Ctx) {
 }
 
 func (c01) RunCase(c *core.Ctx) {
+	if c.Case%100 == 41 {
+		// the struct a Preprocess function returns is parsed like any other record: 0 and false are present values and are tested
+		c.Eval(1)
+		if problem := dPreprocessStruct(); problem != "" && strings.Contains(problem, "present values") {
+			c.Violation("success-but-invalid|Parse", map[string]any{"schema": "{order: Preprocess(fn -> Order{Qty, Paid, Note}, Struct{Qty: Int().GTE(1), Paid: Bool().True(), Note: String()})}", "observed": problem})
+			return
+		}
+	}
 	if c.Case%4 == 3 {
 		c01Fronts(c)
 		return
